@@ -298,6 +298,16 @@ Fixpoint mentions (n : string) (e : exp) : bool :=
   | ESeg _ l r => mentions n l || match r with Some x => mentions n x | None => false end
   end.
 
+(* equReaches: is the name reachable from the expression, directly or through the current values of the EQU names occurring
+   in it?  (Go walks the map with a visited set; reachability within |macros| hops is the same relation.)  The association
+   list may hold shadowed older entries: only the value [lookup] returns counts. *)
+Fixpoint equ_reaches (fuel : nat) (macros : list (string * exp)) (n : string) (e : exp) : bool :=
+  mentions n e ||
+  match fuel with
+  | O => false
+  | S f => existsb (fun kv => mentions (fst kv) e && match lookup (fst kv) macros with Some v => equ_reaches f macros n v | None => false end) macros
+  end.
+
 Definition step (s : p1state) (st : stmt) : p1state :=
   if stuck s then s else
   match st with
@@ -305,7 +315,7 @@ Definition step (s : p1state) (st : stmt) : p1state :=
   | SEqu n e =>
       match eval_top (env_of s) e with
       | Stuck => set_stuck s
-      | Ev e' _ => if mentions n e' then set_diag s      (* circular definition: reported and ignored (fix in /repo) *)
+      | Ev e' _ => if equ_reaches (S (Datatypes.length (mac s))) (mac s) n e' then set_diag s   (* circular definition: reported and ignored (fixes 6679a29, 29ece2e) *)
                    else set_mac s n e'
       end
   | SGlobal l => add_globals s l
